@@ -26,11 +26,20 @@ TIE = "T-gen:structure"
 HEAD = re.compile(r"\((\w+)")
 
 # (name, derive attributes, `tgen <opts>` of the model driver)
+# model option string = <box_only_if_needed><pest_optimizer><emit_rule_reference><do_not_emit_span><no_warnings> (Driver/TGen.lean
+# `config`): the model (`Model/GenOpts.lean`) HAS all of these options; that the last three do not change a `rule!`
+# argument is exactly what this tie observes (`Props/C20Emit.lean` proves it of the model)
 OPTION_SETS = [
     ("default", "", "default"),
     ("raw", "#[pest_optimizer = false]", "00"),
     ("boxmin", "#[box_only_if_needed]", "11"),
     ("raw+boxmin", "#[pest_optimizer = false] #[box_only_if_needed]", "10"),
+    ("ref", "#[emit_rule_reference]", "01100"),
+    ("nospan+nowarn", "#[do_not_emit_span] #[no_warnings]", "01011"),
+    ("allon", "#[emit_rule_reference] #[box_only_if_needed] #[no_warnings] #[do_not_emit_span]", "11111"),
+    ("raw+ref+nospan", "#[pest_optimizer = false] #[emit_rule_reference] #[do_not_emit_span]", "00110"),
+    ("raw+boxmin+ref+nowarn", "#[pest_optimizer = false] #[box_only_if_needed] #[emit_rule_reference] #[no_warnings]", "10101"),
+    ("tag-options", "#[emit_tagged_node_reference] #[truncate_getter_at_node_tag = false] #[simulate_pair_api] #[no_warnings]", "01001"),
 ]
 
 
